@@ -1,0 +1,270 @@
+//! Verification hooks. This module only exists when the crate is built with
+//! `--cfg getong_stateright_verif`; without that flag none of this code is compiled and the crate
+//! is unchanged.
+//!
+//! * read-only wrappers around private helpers ([`fingerprint_of`], [`path_from_fingerprints`],
+//!   [`path_final_state`]);
+//! * a per-checker [`Ctx`] that the thread calling `spawn_*` may install for itself
+//!   ([`set_spawn_ctx`]); the checker captures it and hands it to its worker threads, which
+//!   consult it for a block-size override and for an optional cooperative scheduler ([`Sched`]);
+//! * [`Mutex`] / [`Condvar`] shims used by the job market: they defer to `parking_lot` and
+//!   additionally report lock / unlock / wait / notify to the scheduler, if any;
+//! * [`Broker`], a public facade over the crate-private job broker.
+//!
+//! Without an installed context every hook is a no-op.
+
+use crate::{Model, Path};
+use std::cell::RefCell;
+use std::collections::VecDeque;
+use std::hash::Hash;
+use std::sync::atomic::{AtomicUsize, Ordering};
+use std::sync::Arc;
+
+/// The fingerprint the checkers use to identify `value`.
+pub fn fingerprint_of<T: Hash>(value: &T) -> u64 {
+    crate::fingerprint(value).get()
+}
+
+fn to_fingerprints(fingerprints: &[u64]) -> Option<VecDeque<crate::Fingerprint>> {
+    fingerprints
+        .iter()
+        .map(|f| crate::Fingerprint::new(*f))
+        .collect()
+}
+
+/// `Path::from_fingerprints` (panics if the fingerprints denote no execution).
+pub fn path_from_fingerprints<M>(model: &M, fingerprints: &[u64]) -> Path<M::State, M::Action>
+where
+    M: Model,
+    M::State: Hash,
+{
+    Path::from_fingerprints(
+        model,
+        to_fingerprints(fingerprints).expect("zero is not a fingerprint"),
+    )
+}
+
+/// `Path::final_state`.
+pub fn path_final_state<M>(model: &M, fingerprints: &[u64]) -> Option<M::State>
+where
+    M: Model,
+    M::State: Hash,
+{
+    Path::final_state(model, to_fingerprints(fingerprints)?)
+}
+
+/// A cooperative scheduler for the worker threads of one checker (or one [`Broker`] program).
+/// All methods are called on the thread concerned and may block until that thread is scheduled.
+pub trait Sched: Send + Sync {
+    /// First thing a worker does.
+    fn worker_start(&self, index: usize);
+    /// Last thing a worker does (also when unwinding from a panic).
+    fn worker_exit(&self);
+    /// The calling worker wants to lock `mutex`; returns once it logically owns it.
+    fn lock(&self, mutex: usize);
+    /// The calling worker released `mutex`.
+    fn unlock(&self, mutex: usize);
+    /// The calling worker released `mutex` and waits on `condvar`; returns once it was notified
+    /// and logically owns `mutex` again.
+    fn wait(&self, condvar: usize, mutex: usize);
+    /// Somebody (a worker or any other thread) notified `condvar`.
+    fn notify(&self, condvar: usize, all: bool);
+    /// A point at which the calling worker may be pre-empted.
+    fn yield_point(&self, site: &'static str);
+}
+
+/// Per-checker verification context.
+pub struct Ctx {
+    /// Overrides the number of states a worker evaluates before it offers to share work.
+    pub block_size: Option<usize>,
+    /// Cooperative scheduler for the workers.
+    pub sched: Option<Arc<dyn Sched>>,
+}
+
+thread_local! {
+    static SPAWN_CTX: RefCell<Option<Arc<Ctx>>> = const { RefCell::new(None) };
+    static WORKER_CTX: RefCell<Option<Arc<Ctx>>> = const { RefCell::new(None) };
+}
+
+/// Installs (or clears) the context that checkers spawned *by the calling thread* will use.
+pub fn set_spawn_ctx(ctx: Option<Arc<Ctx>>) {
+    SPAWN_CTX.with(|c| *c.borrow_mut() = ctx);
+}
+
+/// The context installed by the calling thread, if any.
+pub fn spawn_ctx() -> Option<Arc<Ctx>> {
+    SPAWN_CTX.with(|c| c.borrow().clone())
+}
+
+fn worker_sched() -> Option<Arc<dyn Sched>> {
+    WORKER_CTX.with(|c| c.borrow().as_ref().and_then(|c| c.sched.clone()))
+}
+
+/// Marks the calling thread as worker `index` of a checker that was spawned with `ctx`.
+pub fn enter_worker(ctx: &Option<Arc<Ctx>>, index: usize) -> WorkerGuard {
+    WORKER_CTX.with(|c| *c.borrow_mut() = ctx.clone());
+    if let Some(s) = worker_sched() {
+        s.worker_start(index);
+    }
+    WorkerGuard(())
+}
+
+/// Ends the worker role of the calling thread when dropped.
+pub struct WorkerGuard(());
+impl Drop for WorkerGuard {
+    fn drop(&mut self) {
+        if let Some(s) = worker_sched() {
+            s.worker_exit();
+        }
+        WORKER_CTX.with(|c| *c.borrow_mut() = None);
+    }
+}
+
+/// The block size to use instead of `default`.
+pub fn block_size(default: usize) -> usize {
+    WORKER_CTX.with(|c| c.borrow().as_ref().and_then(|c| c.block_size).unwrap_or(default))
+}
+
+/// A point at which a scheduled worker may be pre-empted.
+pub fn yield_point(site: &'static str) {
+    if let Some(s) = worker_sched() {
+        s.yield_point(site);
+    }
+}
+
+static NEXT_ID: AtomicUsize = AtomicUsize::new(1);
+
+/// `parking_lot::Mutex` that reports to the scheduler of the checker it was created for.
+pub struct Mutex<T> {
+    inner: parking_lot::Mutex<T>,
+    id: usize,
+}
+
+/// Guard of [`Mutex`].
+pub struct MutexGuard<'a, T> {
+    guard: Option<parking_lot::MutexGuard<'a, T>>,
+    owner: &'a Mutex<T>,
+    sched: Option<Arc<dyn Sched>>,
+}
+
+impl<T> Mutex<T> {
+    pub fn new(value: T) -> Self {
+        Mutex {
+            inner: parking_lot::Mutex::new(value),
+            id: NEXT_ID.fetch_add(1, Ordering::Relaxed),
+        }
+    }
+
+    pub fn lock(&self) -> MutexGuard<'_, T> {
+        let sched = worker_sched();
+        if let Some(s) = &sched {
+            s.lock(self.id);
+        }
+        MutexGuard {
+            guard: Some(self.inner.lock()),
+            owner: self,
+            sched,
+        }
+    }
+}
+
+impl<T> std::ops::Deref for MutexGuard<'_, T> {
+    type Target = T;
+    fn deref(&self) -> &T {
+        self.guard.as_ref().unwrap()
+    }
+}
+
+impl<T> std::ops::DerefMut for MutexGuard<'_, T> {
+    fn deref_mut(&mut self) -> &mut T {
+        self.guard.as_mut().unwrap()
+    }
+}
+
+impl<T> Drop for MutexGuard<'_, T> {
+    fn drop(&mut self) {
+        drop(self.guard.take());
+        if let Some(s) = &self.sched {
+            s.unlock(self.owner.id);
+        }
+    }
+}
+
+/// `parking_lot::Condvar` that reports to the scheduler of the checker it was created for.
+pub struct Condvar {
+    inner: parking_lot::Condvar,
+    id: usize,
+    sched: Option<Arc<dyn Sched>>,
+}
+
+impl Condvar {
+    /// Remembers the scheduler of the spawning thread so that notifications from threads that
+    /// are not workers (a checker being dropped, the timeout thread) reach it as well.
+    pub fn new() -> Self {
+        Condvar {
+            inner: parking_lot::Condvar::new(),
+            id: NEXT_ID.fetch_add(1, Ordering::Relaxed),
+            sched: spawn_ctx().and_then(|c| c.sched.clone()),
+        }
+    }
+
+    pub fn wait<T>(&self, guard: &mut MutexGuard<'_, T>) {
+        if let Some(s) = guard.sched.clone() {
+            drop(guard.guard.take());
+            s.wait(self.id, guard.owner.id);
+            guard.guard = Some(guard.owner.inner.lock());
+        } else {
+            self.inner.wait(guard.guard.as_mut().unwrap());
+        }
+    }
+
+    pub fn notify_one(&self) {
+        if let Some(s) = &self.sched {
+            s.notify(self.id, false);
+        }
+        self.inner.notify_one();
+    }
+
+    pub fn notify_all(&self) {
+        if let Some(s) = &self.sched {
+            s.notify(self.id, true);
+        }
+        self.inner.notify_all();
+    }
+}
+
+impl Default for Condvar {
+    fn default() -> Self {
+        Self::new()
+    }
+}
+
+/// Public facade over the crate-private job broker.
+pub struct Broker<J>(crate::job_market::JobBroker<J>);
+
+impl<J: Send + 'static> Broker<J> {
+    pub fn new(thread_count: usize) -> Self {
+        Broker(crate::job_market::JobBroker::new(thread_count, None))
+    }
+}
+
+impl<J> Broker<J> {
+    pub fn pop(&mut self) -> VecDeque<J> {
+        self.0.pop()
+    }
+    pub fn push(&mut self, jobs: VecDeque<J>) {
+        self.0.push(jobs)
+    }
+    pub fn split_and_push(&mut self, jobs: &mut VecDeque<J>) {
+        self.0.split_and_push(jobs)
+    }
+    pub fn is_closed(&self) -> bool {
+        self.0.is_closed()
+    }
+}
+
+impl<J> Clone for Broker<J> {
+    fn clone(&self) -> Self {
+        Broker(self.0.clone())
+    }
+}
